@@ -1345,6 +1345,8 @@ class C02(HistoryCheck):
                  scaling=rng.choice([0.0, 0.0, 0.4]), neg_scaling=True, res_ref=True,
                  mf=rng.choice([0.0, 0.0, 0.2]), nl=['nlbgs', 'newton', 'nlbj', 'broyden'],
                  rhs_checking=0.75,      # the reverse-mode right-hand-side cache is a fwd/rev asymmetry of its own
+                 chain_resps=0.5,        # ... and is consulted only for responses that depend on other responses
+                 tap=rng.choice([0.0, 0.5]),     # ... and answers when one response reads one entry of another
                  sub_ln=rng.choice([0.0, 0.6]))
         return k
 
